@@ -82,20 +82,24 @@ func (c *childResult) add(res *caseResult) {
 	if res.MaxUncomp > c.MaxUncomp[res.BatchMax] {
 		c.MaxUncomp[res.BatchMax] = res.MaxUncomp
 	}
-	if len(c.Samples) < 3 && len(res.FrameLens) > 1 {
-		c.Samples = append(c.Samples, res)
-	}
 	if len(res.Viol) > 0 {
 		c.ViolCases++
 		seen := map[string]bool{}
+		cs, _ := parseCaseID(res.ID)
 		for _, v := range res.Viol {
-			if seen[v.Class] {
+			key := violKey(v, cs.V)
+			if seen[key] {
 				continue
 			}
-			seen[v.Class] = true
-			c.CountCl[v.Class]++
-			if old := c.ByClass[v.Class]; old == nil || simpler(res, old) {
-				c.ByClass[v.Class] = res
+			seen[key] = true
+			c.CountCl[key]++
+			mode := "warm"
+			if cs.Cold {
+				mode = "cold"
+			}
+			c.CountCl[fmt.Sprintf("%s|v%d %s", key, cs.V, mode)]++
+			if old := c.ByClass[key]; old == nil || simpler(res, old) {
+				c.ByClass[key] = res
 			}
 		}
 	}
@@ -103,8 +107,22 @@ func (c *childResult) add(res *caseResult) {
 
 // simpler orders violating cases so that the reported one is small and stable.
 func simpler(a, b *caseResult) bool {
-	if len(a.FrameLens) != len(b.FrameLens) {
-		return len(a.FrameLens) < len(b.FrameLens)
+	rank := func(r *caseResult) []int {
+		c, _ := parseCaseID(r.ID)
+		codec, cold := 0, 0
+		if c.Codec != "none" {
+			codec = 1
+		}
+		if c.Cold {
+			cold = 1
+		}
+		return []int{codec, c.Txn, c.NT * c.NP, c.Cid, cold, len(r.FrameLens), c.V}
+	}
+	ra, rb := rank(a), rank(b)
+	for i := range ra {
+		if ra[i] != rb[i] {
+			return ra[i] < rb[i]
+		}
 	}
 	return a.ID < b.ID
 }
@@ -201,6 +219,9 @@ func childMain(t *testing.T, spec string) int {
 			break
 		}
 		res.add(cr)
+		if i%(len(cases)/7+1) == 0 { // seven samples spread over the grid
+			res.Samples = append(res.Samples, cr)
+		}
 	}
 	out, _ := json.Marshal(res)
 	if err := os.WriteFile(os.Getenv("C18_OUT"), out, 0o644); err != nil {
@@ -218,7 +239,11 @@ func TestVerifC18(t *testing.T) {
 		os.Exit(replay(t, p))
 	}
 	if spec := os.Getenv("C18_CHILD"); spec != "" {
-		os.Exit(childMain(t, spec))
+		code := childMain(t, spec)
+		if os.Getenv("C18_NOEXIT") != "" { // lets -test.cpuprofile flush; development aid only
+			return
+		}
+		os.Exit(code)
 	}
 	if err := selfTest(); err != nil {
 		ev.InfraError("decoder self test: %v", err)
@@ -300,9 +325,7 @@ func TestVerifC18(t *testing.T) {
 		r.Distinct(id)
 	}
 	sort.Slice(total.Samples, func(i, j int) bool { return total.Samples[i].ID < total.Samples[j].ID })
-	step := len(total.Samples)/6 + 1
-	for i := 0; i < len(total.Samples); i += step {
-		s := total.Samples[i]
+	for _, s := range total.Samples {
 		r.Sample(map[string]any{"case": s.ID, "size_search": s.Note, "frame_lens": s.FrameLens, "write_max": s.WriteMax, "batch_lens": s.BatchLens, "batch_max": s.BatchMax,
 			"records_written": s.Records, "records_rejected_too_large": s.Rejected})
 	}
@@ -358,19 +381,33 @@ func TestVerifC18(t *testing.T) {
 	sort.Strings(keys)
 	for _, k := range keys {
 		res := total.ByClass[k]
+		cs, _ := parseCaseID(res.ID)
 		var detail []string
 		for _, v := range res.Viol {
-			if v.Class == k && len(detail) < 3 {
+			if violKey(v, cs.V) == k && len(detail) < 3 {
 				detail = append(detail, v.Detail)
 			}
 		}
-		key := k
-		if c, err := parseCaseID(res.ID); err == nil {
-			key = k + ":" + versionClass(c.V)
+		var where []string
+		for ck, n := range total.CountCl {
+			if strings.HasPrefix(ck, k+"|") {
+				where = append(where, fmt.Sprintf("%s: %d", ck[len(k)+1:], n))
+			}
 		}
-		r.Violation(key, fmt.Sprintf("%d cases with class %s; simplest: %s\n%s\n%s", total.CountCl[k], k, res.ID, res.Note, strings.Join(detail, "\n")), res)
+		sort.Strings(where)
+		r.Violation(k, fmt.Sprintf("%d cases (%s); simplest: %s\n%s\n%s", total.CountCl[k], strings.Join(where, ", "), res.ID, res.Note, strings.Join(detail, "\n")), res)
 	}
 	os.Exit(r.Write())
+}
+
+// violKey is the stable class of a violation: what went wrong, in which family
+// of produce versions, and (size limits) a coarse magnitude.
+func violKey(v violation, version int) string {
+	k := v.Class + ":" + versionClass(version)
+	if v.Sub != "" {
+		k += ":" + v.Sub
+	}
+	return k
 }
 
 // versionClass groups produce versions by request / log format.
